@@ -3,7 +3,8 @@ import sys, os, json, subprocess
 ROOT = os.path.dirname(os.path.dirname(os.path.abspath(__file__)))
 PY = os.path.join(ROOT, ".venv", "bin", "python")
 CASES = [("fs_refute", "COUNTEREXAMPLE"), ("fs_confirm", "CONFIRMED"), ("dict_refute", "COUNTEREXAMPLE"),
-         ("dict_confirm", "CONFIRMED"), ("tuple_refute", "COUNTEREXAMPLE"), ("tuple_confirm", "CONFIRMED")]
+         ("dict_confirm", "CONFIRMED"), ("tuple_refute", "COUNTEREXAMPLE"), ("tuple_confirm", "CONFIRMED"),
+         ("charset_confirm", "CONFIRMED"), ("charset_refute", "COUNTEREXAMPLE"), ("charset_long", "CONFIRMED")]
 def main():
     bad = 0
     for fn, want in CASES:
